@@ -160,6 +160,7 @@ def _variant_schema(v):
 SCHEMA_VARIANTS = ["omitted", "identical", "other_schema_id", "reordered", "renumbered", "type_changed", "nullability_changed", "extra_field", "missing_field"]
 RECORDS = {
     "ok": {"a": 5, "b": "x", "f": 0.5, "d": datetime.date(2024, 1, 2)},
+    "ok_long_string": {"a": 6, "b": "u" * 40 + "z"},
     "ok_unicode_none": {"a": -(2 ** 63), "b": "é漢", "f": None, "d": None},
     "ok_missing_optional": {"a": 2 ** 63 - 1},
     "unknown_key": {"a": 5, "zz": 1},
